@@ -157,6 +157,7 @@ type vMemAdapter struct {
 	Calls      []string
 	CallNo     int
 	FailAt     int
+	FailLoss   bool // every call from the FailAt-th on fails: the connection is lost
 	CrashAfter int
 	CrashSnap  *vMemAdapter
 }
@@ -230,7 +231,7 @@ func (a *vMemAdapter) vmemEnter(name string) error {
 	a.vmemDefaults()
 	a.Calls = append(a.Calls, name)
 	a.CallNo++
-	if a.FailAt != 0 && a.CallNo == a.FailAt {
+	if a.FailAt != 0 && (a.CallNo == a.FailAt || (a.FailLoss && a.CallNo >= a.FailAt)) {
 		a.mu.Unlock()
 		return types.ErrInternal
 	}
@@ -251,6 +252,7 @@ func (a *vMemAdapter) vmemLeave() {
 func (a *vMemAdapter) vmemArm(k int) {
 	a.mu.Lock()
 	a.FailAt = k
+	a.FailLoss = false
 	a.CallNo = 0
 	a.mu.Unlock()
 }
@@ -268,6 +270,7 @@ func (a *vMemAdapter) vmemArmCrash(k int) {
 func (a *vMemAdapter) vmemDisarm() {
 	a.mu.Lock()
 	a.FailAt = 0
+	a.FailLoss = false
 	a.CrashAfter = 0
 	a.mu.Unlock()
 }
